@@ -97,6 +97,9 @@ type RevA struct {
 	HashLabel *string `json:"hashlabel"`
 	Created   int64   `json:"created"`
 	LabelsNil bool    `json:"labels_nil"`
+	// Corrupt: the stored data is not a patch that can be applied (truncated JSON): an object the API admits (data is an
+	// opaque RawExtension) but ApplyRevision cannot read.  Outside the model; used by monitor-only families.
+	Corrupt bool `json:"corrupt,omitempty"`
 }
 
 type WorldA struct {
@@ -313,6 +316,10 @@ func (r *RevA) object(base *SetA) *kubeapps.ControllerRevision {
 		Data:       runtime.RawExtension{Raw: patchOf(base, r.Tmpl)},
 	}
 	rev.CreationTimestamp = metav1.NewTime(epoch.Add(time.Duration(r.Created) * time.Second))
+	if r.Corrupt {
+		raw := patchOf(base, r.Tmpl)
+		rev.Data = runtime.RawExtension{Raw: append([]byte{}, raw[:len(raw)/2]...)}
+	}
 	if !r.LabelsNil {
 		rev.Labels = map[string]string{}
 		if r.Match {
